@@ -162,58 +162,92 @@ def r2_definitions(R) -> None:
     R.check(bool(g.raises('NotImplementedError')), g.q, 'diff-negative', 'd < 0 is refused', 'd < 0 is not refused', where=g.fi.where)
 
 
-def r3_precedence(R) -> None:
+def _stmt_of(fnode, se, node):
+    best = None
+    for s_ in ast.walk(fnode):
+        if isinstance(s_, ast.stmt) and id(s_) in se.before and any(x is node for x in ast.walk(s_)):
+            if best is None or any(x is s_ for x in ast.walk(best)):
+                best = s_
+    if best is None:
+        raise Unsupported('statement not visited by the symbolic evaluator')
+    return best
+
+
+def _eval_namespace(R):
+    """(Fn, eval call, layers of the namespace handed to eval): the namespace as `base | layer | layer`, read by the
+    gated symbolic evaluator whatever intermediate names the function uses."""
+    from fsa.gated import SymExec, canon, merge_layers
     q = f'{VC}.eval'
     f = Fn(R, q)
-    ups = []
-    for n in f.cfg.nodes:
-        if n.kind == 'stmt' and n.ast is not None:
-            for x in ast.walk(n.ast):
-                if method_call(x, 'update') and isinstance(x.func.value, ast.Name):
-                    ups.append((n, x))
-    if not R.require(q, len(ups), 'locals_.update(...) for variables and for caller locals', fi=f.fi, minimum=2, pred=lambda x: method_call(x, 'update')):
-        return
-    target = {x.func.value.id for (_n, x) in ups}
-    R.check(len(target) == 1, q, 'one-namespace', 'one namespace dict is populated', f'updates go to {target}', where=f.fi.where)
-    ns = target.pop() if len(target) == 1 else None
-    var_up = [(n, x) for (n, x) in ups if isinstance(x.args[0], ast.DictComp) and text(x.args[0].generators[0].iter) in ('self.index', "self.__dict__['index']")]
-    loc_up = [(n, x) for (n, x) in ups if text(x.args[0]) == 'locals']
-    if not (R.require(q, len(var_up), 'update with the container variables', fi=f.fi, pred=lambda x: isinstance(x, ast.DictComp))
-            and R.require(q, len(loc_up), 'update with the caller locals', fi=f.fi, pred=lambda x: method_call(x, 'update'))):
-        return
-    vn, ln = var_up[0][0], loc_up[0][0]
-    R.check(vn.id in f.dom[ln.id], q, 'order-variables-before-locals', 'caller locals are applied after (so override) the variables',
-            'caller locals can be applied before the container variables (variables would override them)', where=f.where(ln))
-    # the namespace starts as the helper table
-    if ns:
-        ds = f.assigns_to(ns)
-        ok = len(ds) == 1 and text(ds[0].ast.value) == 'builtins' and ds[0].id in f.dom[vn.id]
-        R.check(ok, q, 'starts-from-builtins', 'the namespace starts from the helper table (lowest precedence)', f'`{ns}` does not start as `builtins`', where=f.fi.where)
-    dc = var_up[0][1].args[0]
-    R.check(text(dc.key) == text(dc.generators[0].target) and text(dc.value) == f'self[{text(dc.key)}]', q, 'variables-bound', 'every variable name is bound to its series',
-            f'`{text(dc)}`', where=f.where(vn))
     ev = [x for x in ast.walk(f.fi.node) if is_call(x, 'eval')]
-    if R.require(q, len(ev), 'eval(expression, globals, locals_)', fi=f.fi, pred=lambda x: is_call(x, 'eval')):
-        a = [text(z) for z in ev[0].args]
-        R.check(a == ['expression', 'globals', ns], q, 'eval-call:' + ','.join(a), 'the expression is evaluated in that namespace', f'eval({", ".join(a)})', where=f.fi.where)
+    if not R.require(q, len(ev), 'eval(expression, globals, locals_)', fi=f.fi, pred=lambda x: is_call(x, 'eval')):
+        return f, None, None
+    c = ev[0]
+    if len(c.args) != 3:
+        R.violation(q, 'eval-call:' + text(c)[:50], f'`{text(c)[:60]}` is not eval(expression, globals, <namespace>)', where=f.fi.where)
+        return f, c, None
+    se = SymExec(f.fi.node)
+    ns = canon(se.value(_stmt_of(f.fi.node, se, c), c.args[2]))
+    return f, c, merge_layers(ns)
+
+
+def r3_precedence(R) -> None:
+    q = f'{VC}.eval'
+    f, c, layers = _eval_namespace(R)
+    if layers is None:
+        return
+    a = [text(z) for z in c.args]
+    R.check(a[:2] == ['expression', 'globals'], q, 'eval-call:' + ','.join(a), 'the expression is evaluated with the given globals', f'eval({", ".join(a)})', where=f.fi.where)
+    kinds = []
+    for (e, cond, tr) in layers:
+        if isinstance(e, ast.DictComp) and text(e.generators[0].iter) in ('self.index', "self.__dict__['index']"):
+            kinds.append('variables')
+            R.check(text(e.key) == text(e.generators[0].target) and text(e.value) in (f'self[{text(e.key)}]', f'self.__getitem__({text(e.key)})') and not e.generators[0].ifs
+                    and cond is None, q, 'variables-bound', 'every variable name is bound to its series', f'`{text(e)}`', where=f.fi.where)
+        elif text(e) == 'locals':
+            kinds.append('locals')
+            okc = cond is None or (text(cond) == 'locals is None' and tr is False)
+            R.check(okc, q, 'locals-always', 'caller locals are applied whenever given', f'caller locals are applied only if `{text(cond) if cond is not None else ""}` is {tr}', where=f.fi.where)
+        elif any(isinstance(x, ast.Name) and x.id in ('builtins', '_builtins') for x in ast.walk(e)):
+            kinds.append('helpers')
+        else:
+            kinds.append('?:' + text(e)[:40])
+    unknown = [k for k in kinds if k.startswith('?:')]
+    if unknown:
+        raise Unsupported(f'{q}: namespace layer `{unknown[0][2:]}` not recognised')
+    R.check('variables' in kinds, q, 'layer-variables', 'the namespace holds the container variables', f'namespace layers: {kinds}', where=f.fi.where)
+    R.check('locals' in kinds, q, 'layer-locals', 'the namespace holds the caller locals', f'namespace layers: {kinds}', where=f.fi.where)
+    if 'variables' in kinds and 'locals' in kinds:
+        R.check(kinds.index('variables') < kinds.index('locals'), q, 'order-variables-before-locals', 'caller locals are applied after (so override) the variables',
+                f'namespace layers are applied in the order {kinds}: the container variables would override caller locals', where=f.fi.where)
+    R.check(kinds[:1] == ['helpers'] and kinds.count('helpers') == 1, q, 'starts-from-builtins', 'the namespace starts from the helper table (lowest precedence)',
+            f'namespace layers are {kinds}: the helper table is not the lowest-precedence layer', where=f.fi.where)
 
 
 def r4_helper_table(R) -> None:
     q = f'{VC}.eval'
-    f = Fn(R, q)
-    ds = [d for d in f.assigns_to('builtins')]
-    ok = False
-    for d in ds:
-        v = d.ast.value
-        guarded = f.holds(d.id, 'builtins is None')
-        if guarded and (is_call(v, 'copy.deepcopy', 'copy.copy', 'dict') and text(v.args[0]) == '_builtins'):
-            ok = True
-        if guarded and text(v) == '_builtins':
-            R.violation(q, 'helper-table-aliased', '`builtins = _builtins`: the package-level helper table itself becomes the namespace and is updated with the '
-                        'container variables', where=f.where(d))
+    f, c, layers = _eval_namespace(R)
+    if layers:
+        base = layers[0][0]
+        ok = False
+        if isinstance(base, ast.IfExp) and text(base.test) == 'builtins is None' and text(base.orelse) == 'builtins':
+            v = base.body
+            if is_call(v, 'copy.deepcopy', 'copy.copy', 'dict') and len(v.args) == 1 and text(v.args[0]) == '_builtins':
+                ok = True
+            elif isinstance(v, ast.Dict) and len(v.keys) == 1 and v.keys[0] is None and text(v.values[0]) == '_builtins':
+                ok = True
+            elif method_call(v, 'copy') and text(v.func.value) == '_builtins':
+                ok = True
+            elif text(v) == '_builtins':
+                R.violation(q, 'helper-table-aliased', 'the package-level helper table itself becomes the namespace and is updated with the container variables', where=f.fi.where)
+                return
+        elif text(base) == '_builtins' or (isinstance(base, ast.IfExp) and '_builtins' in (text(base.body), text(base.orelse))):
+            R.violation(q, 'helper-table-aliased', 'the package-level helper table itself becomes the namespace and is updated with the container variables', where=f.fi.where)
             return
-    R.check(ok, q, 'helper-table-copied', 'the default helper table is a copy of the package-level one',
-            'no `if builtins is None: builtins = copy.deepcopy(_builtins)`', where=f.fi.where)
+        elif not any(isinstance(x, ast.Name) and x.id == '_builtins' for x in ast.walk(base)):
+            raise Unsupported(f'{q}: base of the namespace `{text(base)[:70]}` does not mention the helper table')
+        R.check(ok, q, 'helper-table-copied', 'the default helper table is a copy of the package-level one',
+                f'the namespace starts as `{text(base)[:80]}`: not `copy.deepcopy(_builtins) if builtins is None else builtins`', where=f.fi.where)
     # _builtins is the functions table
     mod = R.repo.module('fsic.core.containers')
     imp = any(isinstance(s, ast.ImportFrom) and any(a.name == 'builtins' and a.asname == '_builtins' for a in s.names) for s in mod.tree.body)
@@ -257,11 +291,17 @@ def r6_nameerror(R) -> None:
         R.check(ok, q, f'nameerror-to-attributeerror:{stmt_key(r)[:40]}', 'an undefined name is reported as AttributeError chained to the NameError',
                 f'`{text(r)[:60]}` is not `raise AttributeError(...) from {h.ast.name}`', where=f'{f.fi.module.relpath}:{r.lineno}')
         msg = r.exc.args[0] if isinstance(r.exc, ast.Call) and r.exc.args else None
-        names = {x.id for x in ast.walk(msg) if isinstance(x, ast.Name)} if msg is not None else set()
-        R.check('name' in names, q, f'nameerror-names-it:{stmt_key(r)[:40]}', 'the message names the missing variable', 'the AttributeError message does not interpolate the missing name',
+        rn = [n_ for n_ in f.cfg.nodes if n_.ast is r]
+        names_it = False
+        if msg is not None and rn:
+            want_nm = f'{h.ast.name}.name'
+            for x in ast.walk(msg):
+                if isinstance(x, ast.Name) and isinstance(x.ctx, ast.Load) and f.etext(rn[0].id, x) == want_nm:
+                    names_it = True
+                if isinstance(x, ast.Attribute) and text(x) == want_nm:
+                    names_it = True
+        R.check(names_it, q, f'nameerror-names-it:{stmt_key(r)[:40]}', 'the message names the missing variable', 'the AttributeError message does not interpolate the missing name',
                 where=f'{f.fi.module.relpath}:{r.lineno}')
-    nd = [d for d in f.assigns_to('name')]
-    R.check(any(text(d.ast.value) == f'{h.ast.name}.name' for d in nd), q, 'nameerror-name-source', 'the name comes from the NameError', '`name = e.name` not found', where=f.fi.where)
     # the try wraps only the eval
     tr = h.handler_of
     R.check(tr is not None and len(tr.handlers) == 1, q, 'single-handler', 'only NameError is translated', 'other handlers around eval()', where=f.where(h))
